@@ -96,7 +96,43 @@ def overflow_in_file(path):
         raise RuntimeError(f'overflow placeholder found {n} times in {path}')
 
 
+DEEP = {'long_sum', 'cmp_chain_220', 'nested4', 'brackets8', 'row_5000_digits', 'exp_huge', 'self_ref', 'valid_nested3', 'valid_wholecol'}
+
+
 def probe(d, scratch):
+    """The whole workbook, and - for the formulas that are deep, long or cyclic, and for every fifth descriptor - the same workbook
+    translated from the formula cell as ENTRY POINT: the obligation (terminates; the library's exception or a loadable class; never a
+    foreign exception) holds for both ways into the translator."""
+    first = probe_whole(d, scratch)
+    if first[0] not in ('ok', 'lib') or FORMULAS[d['formula']] is None:
+        return first
+    if d['formula'] not in DEEP and (sum(map(ord, d['title'] + d['const'] + d['formula'])) % 5):
+        return first
+    xlsx = os.path.join(scratch, f'c06-{os.getpid()}.xlsx')
+    si = 1 if d['title'] == 'dquote_last' else 0
+    try:
+        ps = Parser().set_excel_file_path(xlsx).disable_safety_check().set_entrypoint_cell(Cell(si, 0, 0))
+        text = repo.with_timeout(30, ps.get_translation)
+    except BaseException as e:  # noqa
+        if isinstance(e, (KeyboardInterrupt, SystemExit)):
+            raise
+        o = repo.outcome_of_exception(e)
+        if o['o'] == 'lib':
+            return first if first[0] == 'lib' or d['formula'] in ('long_sum', 'cmp_chain_220') else ('badclass', f'the whole workbook translates, the entry point A1 is rejected: {str(e)[:80]}')
+        return o['o'], 'entry point A1: ' + o.get('t', '') + ':' + str(e)[:80]
+    try:
+        klass = repo.load_class(text)
+        klass()
+    except SyntaxError as e:
+        return 'syntax', 'entry point A1: ' + str(e)[:80]
+    except Exception as e:  # noqa
+        return 'foreign', 'entry point A1: load:' + type(e).__name__
+    if f'def _{si}_0_0(self)' not in text:
+        return 'badclass', 'entry point A1: the class has no member for the entry cell'
+    return first
+
+
+def probe_whole(d, scratch):
     """Full public path: xlsx -> Parser.write_translation -> load both ways. Returns (outcome, detail)."""
     sheets = build_sheets(d)
     xlsx = os.path.join(scratch, f'c06-{os.getpid()}.xlsx')
